@@ -26,6 +26,7 @@ ASSUMPTIONS = [
     "bound (3) #requests <= #distinct OIDs revealed + #roots + 1 is deliberately loose",
     "for repetition-dependent f only termination, no-re-request, the request bound and the outcome class are asserted (the trajectory then depends on chunking the client is free to choose)",
     "a non-advancing binding later in the same GETBULK response, after the column has left its root, may or may not be reported",
+    "the first request of every operation asks for the roots themselves, so a non-advancing f(root, 0) must be reported (strict) whatever grouping the implementation uses later",
     "a response with a non-zero error-status must end the operation: normally (status 2 on a continuation request, documented) or with the ErrorResponse subclass; it must never be re-requested",
     "a response without any binding (max-repetitions 0, or scripted) must still end the operation: normally, or with SnmpError for the GETNEXT-based operations (binding-count mismatch)",
 ]
@@ -225,6 +226,25 @@ def run_case(case) -> Result:
     if outcome == "faulty" and not nonadv:
         return Result("%s raised FaultySNMPImplementation although every reachable answer advances: %s" % (
             op, exc_text), nonadv, classes)
+    # (6) the very first answer: whatever the grouping of later requests, the first request asks for the roots themselves
+    # and the first repetition answers f(root, 0) for each of them; a non-advancing one must be reported
+    if not agent.empty_sent and not agent.errors_sent and not (bulk == 0 and op in ("bulkwalk", "bulktable")):
+        stalled = [r for r in used_roots if probe.f(r, 0) is not None and not r < probe.f(r, 0)]
+        if op in ("bulkwalk", "bulktable"):
+            # a GETBULK row is positional: an implementation may stop reading it at the first endOfMibView (for a conformant
+            # agent and ascending roots everything behind it is endOfMibView too), so only stalls before that count
+            ordered = sorted(used_roots)
+            first_eom = next((i for i, r in enumerate(ordered) if probe.f(r, 0) is None), len(ordered))
+            stalled = [r for r in stalled if ordered.index(r) < first_eom]
+        if stalled:
+            classes.append("first_answer_stalls")
+            lenient = errors == "warn" and op in ("walk", "multiwalk")
+            if not lenient and outcome != "faulty":
+                return Result("%s: the first answer for root %s is %s, which does not advance, but the operation ended normally "
+                              "(delivered %s)" % (op, vagent.S(stalled[0]), vagent.S(probe.f(stalled[0], 0)),
+                                                  [vagent.S(o) if isinstance(o, tuple) else o for o in delivered]), nonadv, classes)
+            if lenient and outcome != "ok":
+                return Result("errors='warn' but %s raised on a non-advancing first answer" % op, nonadv, classes)
     # (5) ideal walker, single root, repetition-independent f
     if reps == 1 and len(used_roots) == 1 and not agent.empty_sent and not agent.errors_sent and not (bulk == 0 and op in ("bulkwalk", "bulktable")):
         root = used_roots[0]
